@@ -377,6 +377,7 @@ def run(tier: str, replay: str | None = None):
                     if iu is not None and iu != mu:
                         corr_mismatch.append(("TypeVar.Simple.s_unite vs unite_values", {"kind": "acc", "a": a, "b": b}, uni.show(iu), uni.show(mu)))
         except RuntimeError as ex:
+            _cleanup_cases("c15")
             rep.violation({"kind": "broken-correspondence", "correspondence": "Gen.Solve.resolve atom_ops vs typevar.resolve_bounds_map", "detail": str(ex)[-1500:]}, no_failing_input=True)
 
     # 5. end-to-end stream
@@ -510,3 +511,16 @@ def show_res(r):
     if isinstance(r, tuple) and r and r[0] == "out":
         return "out-of-fragment: " + r[1]
     return uni.show(r)
+
+
+def _cleanup_cases(name):
+    """lib.coq_eval leaves its case files behind when an evaluation fails; remove this run's."""
+    import os
+
+    d = lib.COQ / "cases"
+    if d.is_dir():
+        for f in list(d.glob(f"{name}_{os.getpid()}_*")) + list(d.glob(f".{name}_{os.getpid()}_*")):
+            try:
+                f.unlink()
+            except OSError:
+                pass
